@@ -6,5 +6,3 @@ mod stubs;
 mod c32;
 #[cfg(kani)]
 mod c30;
-#[cfg(kani)]
-mod c30p;
